@@ -701,6 +701,10 @@ def corpus_cases():
         ('folded-control-byte', 'any', b'GET / HTTP/1.1\r\nHost: h\r\nX-Fold: a\r\n b\\r\\nX-Injected: 1\r\n\r\n'),
         ('folded-control-byte', 'any', b'GET x HTTP/1.1\r\nHost: h\r\n \\r\\nSet-Cookie: a=b\r\n\r\n'),
         ('folded-control-byte', 'any', b'GET x HTTP/1.1\r\nHost: h\r\n e\x01vil\r\n\r\n'),
+        ('version-echo-400', 'any', b'GET / HTTP/9.1\r\nHost: h\r\nX: a\x00b\r\n\r\n'),
+        ('version-echo-400', 'any', b'GET / HTTP/1.7\r\nHost: h\r\nX: a\x01b\r\n\r\n'),
+        ('version-echo-400', 'any', b'POST / HTTP/3.0\r\nHost: h\r\nContent-Length: abc\r\n\r\n'),
+        ('version-echo-400', 'any', b'GET / HTTP/2.0\r\nNoColonHere\r\n\r\n'),
         ('trailing-garbage', 'any', GOOD + b'XYZ'),
         ('http10-no-keepalive', 'accept', b'GET /old HTTP/1.0\r\n\r\n'),
         ('connection-close', 'accept', b'GET /bye HTTP/1.1\r\nHost: h\r\nConnection: close\r\n\r\n'),
